@@ -546,6 +546,23 @@ def rule_K_REPR(ctx, repo):
             rets = [n for n in ast.walk(ci.methods['__repr__'].node) if isinstance(n, ast.Return)]
             ok = bool(rets) and all(isinstance(r.value, ast.Constant) and isinstance(r.value.value, str) for r in rets)
             where = ci.methods['__repr__'].where
+        # K-SINGLETON: keys embed the marker object itself and compare it by identity, so a pickled key (an archived entry, a dill'ed cached
+        # function) must unpickle to the very same object: __reduce__ returns the name the instance is bound to in its module (pickle by
+        # reference), or the class defines value equality (__eq__ and __hash__)
+        sok = False
+        if ci is not None:
+            if '__reduce__' in ci.methods or '__reduce_ex__' in ci.methods:
+                fn = ci.methods.get('__reduce__') or ci.methods.get('__reduce_ex__')
+                rets = [n for n in ast.walk(fn.node) if isinstance(n, ast.Return)]
+                sok = bool(rets) and all(isinstance(r.value, ast.Constant) and r.value.value == inst for r in rets)
+            if not sok and '__eq__' in ci.methods and '__hash__' in ci.methods:
+                sok = True
+        ctx.ob('K-SINGLETON', inst, sok)
+        if not sok:
+            ctx.fail('K-SINGLETON', '%s::%s' % (m.rel, inst), 'marker %s does not survive pickling as itself' % inst,
+                     'the marker object %s (class %s) is embedded in raw keys and compared by identity, but it is pickled by value: a key that went through an '
+                     'archive or a dill round trip holds a *different* %s instance, so the entry is never found again (recomputed in the next session; a '
+                     'restored cached function misses everything it had cached)' % (inst, cls_name, cls_name), ci.where if ci is not None else where)
         ctx.ob('K-REPR', inst, ok)
         if not ok:
             ctx.fail('K-REPR', '%s::%s' % (m.rel, inst), 'marker %s has no constant repr' % inst,
